@@ -1,4 +1,6 @@
 import NxProofs.Cipher
+import NxProofs.Refine
+import NxProps.C04
 /-!
 # C01 — PRUDP reliable channel: in-order, exactly-once, uncorrupted delivery
 
@@ -16,6 +18,15 @@ Hypotheses, each explicit and satisfiable (examples at the end):
                    (16-bit ids cannot survive more: `half_window_needed` below; DESIGN §6 D12).
 * atomic `send`  — one writer at a time per substream (`Op.send` is one step). The code guarantees it only
                    if callers do not overlap sends on a substream; see `level_note` (D11).
+
+**L1 → L2 (receive side).** The endpoint model that reproduces real sessions byte for byte (`NxModel/Prudp/Conn.lean`) refines
+this channel on its receive path: `window_update_natural` (the sliding window does not look at what it stores),
+`l1_release_loop_refines_l2` (`Conn.consume` = `Core.consume` on the projected packets, under the abstraction `RRel`:
+EOF flag = closed, queue = delivered messages, fragment buffer, decryption position) and `l1_process_reliable_refines_l2`
+(`process_reliable` = `Receiver.arrive`). Hypotheses: the substream's lists exist (`SubWF`), the window holds reliable
+packets of that substream (`GoodWin`, preserved), compression off (`decompress = id`; the zlib framing is C08's).
+The send side (`Conn.send` emits `wiresOf … (split …)`) and the network between two endpoints are tied by the L1/L2
+correspondence runs only.
 -/
 namespace Nx.C01
 open Nx Nx.Chan
@@ -111,5 +122,39 @@ example :
       (run idCipher 2 (init 65535) ops).s.sent = [[1, 2, 3, 4, 5], [9]] := by decide
 
 example : CipherOk idCipher := idCipher_ok
+
+/-! ### the L1 endpoint's receive path refines the L2 receiver -/
+
+open Nx.L1 Nx.Prudp in
+theorem window_update_natural {α β : Type} (f : α → β) (w : Window α) (id : Nat) (p : α) :
+    (w.map f).update id (f p) = ((w.update id p).1.map f, (w.update id p).2.map f) := update_map f w id p
+
+open Nx.L1 Nx.Prudp in
+theorem l1_release_loop_refines_l2 (env : Env) (hdec : ∀ b, env.decompress b = .ok b) (sub : Nat) (ci : Cipher)
+    (rel : List Packet) (c : Conn) (core : Core) (hw : SubWF c sub) (hc : cipherOf c sub = ci)
+    (hgood : ∀ q ∈ rel, q.substreamId = sub ∧ hasReliable q.flags = true) (hr : RRel c sub core) :
+    RRel (Conn.consume env sub rel c).c sub (core.consume ci (rel.map wireOf)) ∧
+    SubWF (Conn.consume env sub rel c).c sub ∧ cipherOf (Conn.consume env sub rel c).c sub = ci :=
+  consume_refines env hdec sub ci rel c core hw hc hgood hr
+
+open Nx.L1 Nx.Prudp in
+theorem l1_process_reliable_refines_l2 (env : Env) (hdec : ∀ b, env.decompress b = .ok b) (sub : Nat) (c : Conn) (w : Window Packet)
+    (core : Core) (nrel : Nat) (p : Packet) (hw : SubWF c sub) (hwl : sub < c.windows.length) (hwin : c.windows[sub]? = some w)
+    (hgw : GoodWin sub w) (hp : p.substreamId = sub ∧ hasReliable p.flags = true) (hr : RRel c sub core) (hlive : c.eof = false) :
+    ∃ w', (c.processReliable env p).c.windows[sub]? = some w' ∧ GoodWin sub w' ∧
+      Receiver.arrive (cipherOf c sub) ⟨w.map wireOf, nrel, core⟩ (wireOf p) =
+        ⟨w'.map wireOf, nrel + (w.update p.packetId p).2.length, (Receiver.arrive (cipherOf c sub) ⟨w.map wireOf, nrel, core⟩ (wireOf p)).core⟩ ∧
+      RRel (c.processReliable env p).c sub (Receiver.arrive (cipherOf c sub) ⟨w.map wireOf, nrel, core⟩ (wireOf p)).core ∧
+      SubWF (c.processReliable env p).c sub ∧ cipherOf (c.processReliable env p).c sub = cipherOf c sub :=
+  processReliable_refines env hdec sub c w core nrel p hw hwl hwin hgw hp hr hlive
+
+/-! non-vacuity: a fresh connection and the initial L2 core are related, its substream 0 is well-formed, its window is good -/
+open Nx.L1 Nx.Prudp in
+example :
+    let c := Conn.new C04.toyEnv (some 1) 1 2 3 ("10.0.0.2", 1) 15 10 ("10.0.0.1", 2) 1 10
+    SubWF c 0 ∧ RRel c 0 core0 ∧ c.eof = false ∧ c.windows[0]? = some { next := 1, packets := [] } ∧
+    GoodWin 0 ({ next := 1, packets := [] } : Window Packet) ∧ (∀ b, C04.toyEnv.decompress b = .ok b) := by
+  refine ⟨by unfold SubWF; decide, ⟨rfl, rfl, fun _ => ⟨rfl, fun _ => ⟨_, rfl, rfl⟩⟩⟩, rfl, rfl, ?_, fun _ => rfl⟩
+  intro kq h; cases h
 
 end Nx.C01
